@@ -85,7 +85,8 @@ def build_harness():
 
 def build_lean(targets):
     t0 = time.time()
-    with Lock(".lake.lock"):
+    m = re.search(r"C\d\d", " ".join(targets))
+    with Lock(".lake.lock." + (m.group(0) if m else "shared")):
         p = subprocess.run(["lake", "build"] + targets, cwd=LEAN, stdout=subprocess.PIPE,
                            stderr=subprocess.STDOUT, text=True)
     return p.returncode == 0, time.time() - t0, p.stdout[-6000:]
